@@ -127,6 +127,21 @@ def build_design(s, shape, gated, enw=1, en_src='input'):
         gate(boxes['inner'], 'gck2', e2)
         q1 = s.wire('q1', w)
         Reg(s, 'r1', o, q1)
+    elif shape.startswith('random#'):
+        e = s.wire('en', enw)
+        ins['en'] = e
+        got = {}
+
+        def body(b):
+            got.update(D.random_design(int(shape.split('#')[1]))(b))
+        box = D.Box(s, 'box', {'en': e}, {}, body)
+        for n_, w_ in got['ins'].items():
+            ins['b_' + n_] = w_
+        gate(box, 'gck', e)
+        # a register of the base domain that reads a wire of the gated block
+        src = [w_ for n_, w_ in box._wires.items() if n_.startswith('q')][0]
+        q1 = s.wire('q1', src.getWidth())
+        Reg(s, 'r1', src, q1)
     elif shape == 'three':
         last = q0
         for k in range(3):
@@ -245,11 +260,13 @@ def gate_task(p, cfg, rec):
             p.prove(name, c, inputs=vars_, replay=replay)
     # canary: with enable free, a gated register must be able to differ from its pre-state
     for name, box in info['gated_boxes'][:1]:
-        leaf = [l for l in box.allLeaves() if l.isClockable()][0]
-        k = 'w:' + leaf.outPorts[0].wire.getFullPath()
-        c = D.differ(post[k], pre[k])
+        cs = []
+        for leaf in [l for l in box.allLeaves() if l.isClockable() and l.outPorts]:
+            k = 'w:' + leaf.outPorts[0].wire.getFullPath()
+            c = D.differ(post[k], pre[k])
+            cs.append(c if not isinstance(c, bool) else z3.BoolVal(c))
         p.res['canaries'] += 1
-        r, m = p.satisfiable([c if not isinstance(c, bool) else z3.BoolVal(c)])
+        r, m = p.satisfiable([z3.Or(*cs)])
         if r == z3.sat:
             p.res['canaries_ok'] += 1
         else:
@@ -264,6 +281,8 @@ def cfgs(tier):
     out.append(('block enable=2-bit input', {'shape': 'multibit', 'enw': 2, 'en_src': 'input'}))
     out.append(('block enable=register inside the gated domain', {'shape': 'inside', 'enw': 1, 'en_src': 'inside'}))
     out.append(('block enable=2-bit register inside the gated domain', {'shape': 'inside', 'enw': 2, 'en_src': 'inside'}))
+    for k in range(4 if quick else 40):
+        out.append(('random design #%d in a gated box, enable=%d-bit input' % (k, 1 + k % 2), {'shape': 'random#%d' % k, 'enw': 1 + k % 2, 'en_src': 'input'}))
     if not quick:
         out.append(('fsm enable=register inside', {'shape': 'fsm', 'enw': 1, 'en_src': 'inside'}))
         out.append(('block enable=3-bit input', {'shape': 'multibit', 'enw': 3, 'en_src': 'input'}))
